@@ -9,7 +9,7 @@
    different character of the haystack, and "captured = instantiated" is then only true up to case. *)
 Require Import Coq.Strings.String.
 Require Import RIO.Base RIO.Pct RIO.Url RIO.Prefix RIO.RegexSem RIO.Marker RIO.MarkerProofs RIO.Rx RIO.C10Run.
-Require Import RIO.RxMatch RIO.RxToks RIO.RxTokSem RIO.RxTokSem3 RIO.RxCapt RIO.RxCapt2 RIO.RxCapt3 RIO.RxCapt4 RIO.RxCapt5.
+Require Import RIO.RxMatch RIO.RxToks RIO.RxTokSem RIO.RxTokSem3 RIO.RxCapt RIO.RxCapt2 RIO.RxCapt3 RIO.RxCapt4 RIO.RxCapt5 RIO.RxCapt6 RIO.RxCapt7.
 Close Scope N_scope.
 
 (* (1) capture-aware soundness of the matcher: [reachc] threads the capture list; a capturing group RGroup (Some i) a
@@ -181,6 +181,61 @@ Proof.
   eexists. split; [vm_compute; reflexivity|]. repeat split; vm_compute; reflexivity.
 Qed.
 
+(* ================================================================== (1) first half, and the closed theorem *)
+(* RIO.RxCapt6: the capture pattern MarkerString::new builds is the named rendering of the template (literals escaped
+   as the model escapes them, references as (?P<name>regex) ), under the side conditions of C10_template_shape.
+   The fold of ms_step tests regex.contains("@name") on the REGEX component while rewriting both components; the
+   invariant relates the chunks of the two strings (same marker name, then a non-identifier character). *)
+Theorem C10_template_capture_shape : forall markers ps ic m, NoDup (map fst markers) -> template_ok markers ps = true ->
+  marker_string_new (template_text ps) markers ic = Some m -> ms_capture m = render_named_model markers ps.
+Proof. exact template_capture_shape. Qed.
+
+Lemma named_model_eq : forall markers ps, Forall (piece_ok markers) ps -> render_named_model markers ps = render_named markers ps.
+Proof.
+  intros markers ps H. induction H as [|p ps Hp _ IH]; [reflexivity|]. unfold render_named_model, render_named in *. cbn [flat_map]. rewrite IH. f_equal.
+  destruct p as [c|n]; cbn [named_text named_piece piece_ok render1] in *; [rewrite Hp; reflexivity|reflexivity].
+Qed.
+Lemma has_dup_NoDup : forall l, has_dup l = false -> NoDup l.
+Proof.
+  induction l as [|x l IH]; intros H; [constructor|]. cbn [has_dup] in H. apply orb_false_iff in H. destruct H as [H1 H2]. constructor; [|apply IH; exact H2].
+  intros Hin. assert (existsb (str_eqb x) l = true) by (apply existsb_exists; exists x; split; [exact Hin|apply str_eqb_refl]). congruence.
+Qed.
+
+(* CLOSED: hypotheses only about the template, the markers, the separator and the values.
+   Scope (side conditions, all executable except the two universally quantified ones on val):
+   literal pieces that are not regex meta characters, marker regexes [0-9]+ / [a-z]+ ([piece_ok]), the conditions of
+   C10_template_shape ([template_ok], distinct marker names), distinct well-formed ASCII reference names, ASCII pattern and
+   request, separator '/', values non-empty and in their marker's class ([vals_ok]) and without '/'. *)
+Theorem C10_model_capture_rx_closed : forall markers (val : str -> str) ps,
+  NoDup (map fst markers) -> template_ok markers ps = true -> Forall (piece_ok markers) ps ->
+  has_dup (refs ps) = false -> forallb group_name_ok (refs ps) = true -> (forall x, In x (refs ps) -> all_ascii x = true) ->
+  all_ascii (render_named markers ps) = true ->
+  sep_delimited sep_slash_c ps = true -> vals_ok markers val ps -> (forall n, sep_free sep_slash_c (val n) = true) ->
+  all_ascii (instantiate val ps) = true ->
+  forall n, In (PRef n) ps ->
+    assoc n (sod_capture rxE (new_with_markers (template_text ps) markers false) (instantiate val ps)) = Some (val n).
+Proof.
+  intros markers val ps Hnd Hok Hp Hdup Hgn Hasc Hpat Hd Hvals Hv Hhay n Hin.
+  destruct (template_shape_some markers ps false n Hnd Hok Hin) as [m Hm].
+  assert (Hcap : utf8_decode (ms_capture m) = render_named markers ps).
+  { rewrite (template_capture_shape markers ps false m Hnd Hok Hm), (named_model_eq markers ps Hp). apply utf8_decode_ascii. exact Hpat. }
+  apply (C10_model_capture_rx_named markers val ps m Hm Hcap Hp Hdup Hgn (has_dup_NoDup _ Hdup) Hasc Hd Hv Hhay); [|exact Hin].
+  exact (capture_regex_matches markers val ps Hp Hvals).
+Qed.
+
+(* the example again, through the closed theorem's hypotheses *)
+Example closed_example_hypotheses :
+  let markers := [(lit "id", cbody_digits); (lit "n", cbody_lower)] in
+  let ps := [PLit 47; PLit 97; PLit 47; PRef (lit "id"); PLit 47; PRef (lit "n")]%N in
+  NoDup (map fst markers) /\ template_ok markers ps = true /\ Forall (piece_ok markers) ps
+  /\ has_dup (refs ps) = false /\ forallb group_name_ok (refs ps) = true /\ all_ascii (render_named markers ps) = true
+  /\ sep_delimited sep_slash_c ps = true.
+Proof.
+  cbv zeta. split; [repeat constructor; cbn; intuition discriminate|]. split; [vm_compute; reflexivity|].
+  split; [repeat constructor; try reflexivity; cbn [piece_ok]; (split; [(left; reflexivity) || (right; reflexivity)|reflexivity])|].
+  repeat split; vm_compute; reflexivity.
+Qed.
+
 Print Assumptions rx_matcher_sound_captures.
 Print Assumptions rx_reachc_forgets_to_reach.
 Print Assumptions rx_captures_valid.
@@ -192,3 +247,6 @@ Print Assumptions C10_model_capture_rx_simple.
 Print Assumptions model_capture_example.
 Print Assumptions strip_named_on_named_rendering.
 Print Assumptions C10_model_capture_rx_named.
+Print Assumptions C10_template_capture_shape.
+Print Assumptions C10_model_capture_rx_closed.
+Print Assumptions closed_example_hypotheses.
